@@ -5,7 +5,7 @@
 (*                                                                                                       *)
 (* Type descriptor (a record tree, produced from JSON):                                                  *)
 (*   [k |-> "uint", w, sat]  [k |-> "int", w]  [k |-> "bool"]  [k |-> "float", w, sat]  [k |-> "void", w]  *)
-(*   [k |-> "farr", n, e]   [k |-> "varr", cap, e]                                                        *)
+(*   [k |-> "farr", n, e]   [k |-> "varr", cap, wcap, e]                                                  *)
 (*   [k |-> "struct" | "union", fields |-> <<descr...>>, sealed |-> BOOLEAN, extent |-> bits]               *)
 (* Value tree:                                                                                            *)
 (*   primitive leaf: the STORAGE bytes of the field in the target language, little-endian (C: uintN_t /    *)
@@ -23,7 +23,7 @@ PadUp(x, a) == ((x + a - 1) \div a) * a
 
 (* width of the implicit length prefix / union tag: the smallest of 8,16,32,64 bits that can hold the value *)
 PrefixW(maxval) == IF maxval < 256 THEN 8 ELSE IF maxval < 65536 THEN 16 ELSE 32
-LenW(t) == PrefixW(t.cap)
+LenW(t) == PrefixW(t.wcap)        \* wcap: capacity of the DSDL definition; cap: capacity of the object (reduced by an override)
 TagW(t) == PrefixW(Len(t.fields) - 1)
 
 RECURSIVE Align(_)
